@@ -101,6 +101,9 @@ func (P) Gen(rng *sim.Rng, tier string) *harness.Case {
 					callers[i] = append(callers[i], harness.Op{K: "oreq", R: rng.Intn(3), F: rng.Chance(0.5)})
 				default:
 					op := harness.Op{K: "req", R: rng.Intn(len(resNames)), F: rng.Chance(0.3), N: uint64(rng.Intn(3))}
+					if cfg.HotCap > 0 && rng.Chance(0.6) {
+						op.R = 2 // the hot-parameter resource: more values in rotation than its caches hold
+					}
 					if op.F {
 						held++
 					}
@@ -246,6 +249,7 @@ func (P) Exec(c *harness.Case) *harness.Outcome {
 	// a pointer to another goroutine needs synchronisation in any program, and without that edge the race
 	// detector would report the other caller's first touch of the entry against its construction.
 	shared := make([][8]atomic.Pointer[base.SentinelEntry], k)
+	xtraces := make([]int, k)
 	harness.RunE2(c, o, "C15", env.Clock, k, func(task int) {
 		var held []*base.SentinelEntry
 		for _, op := range c.Callers[task] {
@@ -253,7 +257,7 @@ func (P) Exec(c *harness.Case) *harness.Outcome {
 			case "xtrace":
 				if op.R >= 0 && op.R < k && op.R != task && op.E >= 0 && op.E < 8 {
 					if e := shared[op.R][op.E].Load(); e != nil {
-						o.Probe("trace_error_on_an_entry_of_another_caller")
+						xtraces[task]++
 						sentinel.TraceError(e, bizErr)
 					}
 				}
@@ -382,6 +386,11 @@ func (P) Exec(c *harness.Case) *harness.Outcome {
 	}
 	if cfg.HotCap > 0 {
 		o.Probe("per_value_caches_smaller_than_the_value_set")
+	}
+	for _, n := range xtraces {
+		if n > 0 {
+			o.ProbeN("trace_error_on_an_entry_of_another_caller", n)
+		}
 	}
 	seen := map[string]bool{}
 	for t := range results {
